@@ -8,7 +8,7 @@ package redis
 
 //@ func crc16
 //@   mode bv
-//@   prop C12
+//@   prop C12 C11
 //@   modifies nothing
 //@   ensures @xmodem crc == crcfold(b, len(b))
 //@   unfold crcfold(b, 0)
@@ -19,7 +19,7 @@ package redis
 //@   loop 0 unfold crcfold(b, i+1)
 
 //@ func hashtag
-//@   prop C12
+//@   prop C12 C11
 //@   modifies nothing
 //@   ensures @whole (tagopen(b) == len(b) || tagclose(b) == len(b) || tagclose(b) == tagopen(b)+1) ==> result == b
 //@   ensures @inner !(tagopen(b) == len(b) || tagclose(b) == len(b) || tagclose(b) == tagopen(b)+1) ==> sameslice(result, b[tagopen(b)+1:tagclose(b)])
@@ -135,7 +135,7 @@ package redis
 //@   modifies nothing
 
 //@ func (*upstream).chooseHost
-//@   prop C03 C12 C14
+//@   prop C03 C12 C14 C11
 //@   requires u != nil && req != nil && req.body != nil && len(req.body.Array) > 0 && u.cfg != nil
 //@   requires @replicas-wellformed forall s int, k int :: 0 <= s && s < 16384 && u.slots[s] != nil && 0 <= k && k < len(u.slots[s].Replicas) ==> u.slots[s].Replicas[k] != nil
 //@   modifies nothing
